@@ -292,6 +292,10 @@ func (cl *compiler) compileAssignStmt(assign *ast.AssignStmt) {
 		}
 	}
 
+	if assign.Tok != token.DEFINE && assign.Tok != token.ASSIGN {
+		panic(cl.errorf(assign, "can't compile %s assignments yet", assign.Tok))
+	}
+
 	rhs := assign.Rhs[0]
 	cl.compileExpr(rhs)
 
